@@ -29,3 +29,11 @@ package taskctl
 //@   requires [nonnil] s != nil
 //@   ensures [flag] res <==> s.cancelled == 1
 //@   modifies nothing
+
+//@ ghost $scheduleReturned scalar Bool
+
+//@ func (*Scheduler).Schedule
+//@   trusted sequential skeleton only: the stage goroutines run concurrently with the loop (see Schedule obligations under C02/C04); for callers the only fact used is that the call returned
+//@   requires [nonnil] s != nil
+//@   ensures  [returned] $scheduleReturned
+//@   modifies $scheduleReturned, $clock
